@@ -247,6 +247,11 @@ def unit_cmds(u, b, out):
         sat = u.get('sat', 'minisat')
         if sat == 'kissat':
             cb += ['--external-sat-solver', 'kissat']
+        elif sat in ('z3', 'cvc5'):
+            cb += ['--' + sat]
+        elif sat != 'minisat':
+            cb += ['--sat-solver', sat]
+        cb += u.get('cbmc_flags', [])
         return cc, gi, cb, igb
     if u.get('mode', 'dfcc') == 'dfcc':
         gi += ['--dfcc', u['harness']]
@@ -337,7 +342,7 @@ def run_unit(u, b, keep=None, trace=False, use_cache=True):
         if data is None:
             if trace:
                 cb = cb + ['--trace']
-            rc, so, se, dt = sh(cb, timeout=u.get('timeout', 300), mem=int(u.get('mem_gb', 12)) << 30)
+            rc, so, se, dt = sh(cb, timeout=int(os.environ.get('VF_TIMEOUT', u.get('timeout', 300))), mem=int(u.get('mem_gb', 12)) << 30)
             if rc == -9:
                 res['error'] = 'cbmc timeout after %ss' % u.get('timeout', 300)
                 return res
